@@ -68,7 +68,7 @@ OPS = {
     'clone': (['any'], lambda E, o, s: o[0].clone()),
     'detach': (['any'], lambda E, o, s: o[0].detach()),
     'to_dtype': (['any'], lambda E, o, s: o[0].to(dtype=E.dt('float32'))),
-    'to_same': (['any'], lambda E, o, s: o[0].to(dtype=E.dt('float64'))),
+    'to_same': (['any'], lambda E, o, s: o[0].to(dtype=E.dt(s.get('dtype', 'float64')))),
     'cpu': (['any'], lambda E, o, s: o[0].cpu()),
     'getitem_slices': (['any'], lambda E, o, s: o[0][_idx_all_slices(o[0], slice(0, 1))]),
     'getitem_int': (['any'], lambda E, o, s: o[0][_idx_all_slices(o[0], 0)]),
